@@ -117,9 +117,8 @@ void run_d(vp::Input const& in, vp::Ctx& ctx) {
 	ctx.label(dl[D]);
 }
 
-// dimensionality 0: one element.  `array<T,0> == array<T,0>` (and !=) is ambiguous on the pinned tree (compile-level finding, see
-// known_findings.txt); everything that instantiates is checked: views A() op B() for all six operators, arrays for the four ordering
-// operators, and array == element.
+// dimensionality 0: one element.  `array<T,0> == array<T,0>` (and !=) was an ambiguous overload on the pinned tree (repaired in /repo, see
+// known_findings.txt): views A() op B() and the arrays themselves for all six operators, and array == element.
 void run_d0(vp::Input const& in, vp::Ctx& ctx) {
 	int va = in.head(1) % 3, vb = in.head(2) % 3, vc = in.head(3) % 3;
 	ctx.desc << "D=0 A=" << va << " B=" << vb << " C=" << vc;
@@ -129,6 +128,7 @@ void run_d0(vp::Input const& in, vp::Ctx& ctx) {
 	check_pair<true>(std::as_const(A)(), B(), x, "const A() vs B()");
 	VP_CHECK((A < B) == x.lt && (A > B) == x.gt && (A <= B) == (x.lt || x.eq) && (A >= B) == (x.gt || x.eq), "cmp/order0", "0-D arrays: ordering operators disagree with the elements " << va << "," << vb);
 	VP_CHECK((A == vb) == x.eq && (A != vb) == !x.eq, "cmp/equal0_value", "0-D array == element");
+	VP_CHECK((A == B) == x.eq && (A != B) == !x.eq && (std::as_const(A) == B) == x.eq && (B == A) == x.eq, "cmp/equal0_arrays", "0-D arrays: == / != disagree with the elements " << va << "," << vb);
 	VP_CHECK(!((A() < B()) && (B() < C())) || (A() < C()), "cmp/transitive", "0-D transitivity");
 	ctx.nontrivial = va != vb;
 	ctx.label("D0");
